@@ -352,6 +352,7 @@ def run(tier):
     wall_budget = None if tier == "quick" else int(_os.environ.get("VERIF_THOROUGH_BUDGET_S", "2400"))
     results = ksweep.run_tasks(tasks, wall_budget=wall_budget)
     agg = {"paths": 0, "queries": 0, "solver_s": 0.0, "decisions": 0}
+    over_budget = []
     refused = 0
     gen = set()
     for r in results:
@@ -365,7 +366,10 @@ def run(tier):
         if r["status"] == "harness-error":
             rep.harness_error(f"{key}: {r.get('error', '')[:300]}")
         elif r["status"] == "budget":
-            rep.harness_error(f"{key}: budget exceeded")
+            if tier == "quick":
+                rep.harness_error(f"{key}: budget exceeded")
+            else:
+                over_budget.append({"request": key, "dimvec": r["dimvec"]})
         elif r["status"] == "violation":
             conf = keval.confirm(r, ["value", "canon"])
             doc = {"property": "C11", "stage": 2, "request": r["request"], "spec": r.get("spec"),
@@ -381,7 +385,7 @@ def run(tier):
         "traces_validated_against_impl": 0, "samples": samples,
         "operator_cases": len(cs), "stage1_paths": tot["paths"], "stage1_recorded": n_rec, "stage1_refused": n_raise,
         "stage2_requests": len(reqs), "stage2_tasks": len(tasks), "stage2_tasks_completed": len(results), "stage2_generated": len(gen), "stage2_no_kernel_refusals": refused,
-        "stage2_paths": agg["paths"], "queries_discharged": tot["queries"] + agg["queries"],
+        "stage2_paths": agg["paths"], "stage2_tasks_over_budget": over_budget[:40], "queries_discharged": tot["queries"] + agg["queries"],
         "solver_s": round(tot["solver_s"] + agg["solver_s"], 2),
         "bounds": {"orders": "0..2 (quick) / 0..3 (thorough); @: 1..2", "dimension sizes stage 1": "0..2^31-1 symbolic",
                    "stage 2": f"dense extents <= {D}, <= {N} stored entries per compressed level"},
